@@ -6,7 +6,9 @@ EXPL = ("Decides on MIR for both type families: PartialEq compares only like-nam
         "compares, all from self; Ord is one lexicographic tuple comparison whose i-th components are the same field on both sides, "
         "covering all fields in the documented order (block size, block hash 1 array, its length, block hash 2 array, its length); "
         "PartialOrd = Some(cmp); for dual hashes the first compared component is the normalised part. The dependence of Ord/full "
-        "equality on the zero tail is discharged by SA-TAIL (every writer of block-hash storage is under a tail rule). NOT decided: "
+        "equality on the zero tail is discharged by SA-TAIL (every writer of block-hash storage is under a tail rule; the in-place normaliser "
+        "and the dual compressor clear the freed tail / terminator-fill the RLE block from the final offset, so whole-array Eq/Hash/Ord of "
+        "the dual type see canonical storage). NOT decided: "
         "the documented order as a value statement over all pairs (it needs the zero-tail invariant plus array comparison semantics).")
 
 
@@ -20,4 +22,6 @@ def run(ctx):
         ctx.guard("C16", "sym", lambda: eqord.len_index_symmetry(ctx, prog))
         ctx.guard("C16", "writers", lambda: tail.classify_writers(ctx, prog))
         ctx.guard("C16", "rle", lambda: tail.rle_write_census(ctx, prog))
+        ctx.guard("C16", "tail-c", lambda: tail.compress_expand(ctx, prog))
+        ctx.guard("C16", "tail-n", lambda: tail.normalize_in_place(ctx, prog))
     return ctx.finish(EXPL, ["core tuple/array/slice comparison and Hasher::write* have their documented meaning"])
